@@ -70,6 +70,12 @@ FLAVOURS = {
         c=BASE + ["-DNDEBUG", "-fsanitize=fuzzer-no-link,address," + UBSAN_C, "-fno-sanitize-recover=all"],
         cxx=BASE + ["-fsanitize=fuzzer-no-link,address," + UBSAN_CXX, "-fno-sanitize-recover=all"],
         ld=["-fsanitize=fuzzer,address," + UBSAN_CXX]),
+    # free-running real threads under ThreadSanitizer: data races the controlled scheduler cannot see because a plain
+    # (non-atomic, unlocked) access offers it no decision point (DESIGN 4.4 / 9.5)
+    "tsan": dict(
+        c=BASE + ["-DNDEBUG", "-fsanitize=thread"],
+        cxx=BASE + ["-fsanitize=thread"],
+        ld=["-fsanitize=thread"]),
     # development aid (tools/coverage.sh): source-based coverage of the library under the harnesses, no sanitizers
     "cov": dict(
         c=BASE + ["-DNDEBUG", "-fprofile-instr-generate", "-fcoverage-mapping"],
